@@ -142,14 +142,14 @@ Qed.
 
 Section GroupLive.
   Variable stream : bool.
-  (* what a member may answer: never a panic; a member of a FutureGroup is a future and answers neither End nor Item *)
-  Definition okg (a: ans) : Prop := a <> APanic /\ (stream = false -> a <> AEnd /\ forall v, a <> AItem v).
+  (* what a member may answer: never a panic; a member of a FutureGroup is a future and answers neither End nor Item, a member of a StreamGroup never Ready *)
+  Definition okg (a: ans) : Prop := a <> APanic /\ (stream = false -> a <> AEnd /\ forall v, a <> AItem v) /\ (stream = true -> forall r, a <> AReady r).
   Definition TSg (s: gst) := g_stream s = stream /\ g_len s = count_occ (g_ent s) /\ g_len s <> 0.
   Definition USg (s: gst) := g_stream s = stream /\ g_len s = count_occ (g_ent s) /\ g_count s = g_done s + g_len s /\ (stream = false -> g_len s <> 0).
 
   Lemma USg_cont s i a s' e : okg a -> gq s -> i < g_slots s -> USg s -> g_awaited s i = true -> g_handle s i a = (s', Cont, e) -> USg s'.
   Proof.
-    intros [Hnp Hne] [_ HW] _ (U1 & U2 & U3 & U4) Ha E. pose proof (g_handle_cases s i a) as H. cbv zeta in H.
+    intros [Hnp [Hne _]] [_ HW] _ (U1 & U2 & U3 & U4) Ha E. pose proof (g_handle_cases s i a) as H. cbv zeta in H.
     destruct a as [|[v|v]|v| |]; rewrite H in E; inversion E; subst; clear E; [split; auto|].
     assert (Hst : stream = true) by (destruct stream; auto; exfalso; apply (proj1 (Hne eq_refl)); reflexivity).
     assert (Ho : occb s i = true) by (apply (w_pend s HW); exact Ha).
@@ -412,7 +412,7 @@ Section GroupFinal.
   Definition PWg (w: world gst) := Pg stream (cs _ w) (scripts _ w).
 
   Lemma okg_np a : okg stream a -> a <> APanic. Proof. intros [H _]. exact H. Qed.
-  Lemma okg_pend : okg stream APend. Proof. split; [discriminate|]. intros _. split; [discriminate|intros v; discriminate]. Qed.
+  Lemma okg_pend : okg stream APend. Proof. split; [discriminate|]. split; [intros _; split; [discriminate|intros v; discriminate]|intros _ r; discriminate]. Qed.
 
   Lemma GInv'_step w o : GInv' w -> GInv' (gstep w o).
   Proof.
@@ -632,7 +632,7 @@ End FDrain.
 Lemma okg_goodfg sc : (forall st, In st sc -> okg false (answer st)) -> goodg sc = true -> goodfg sc = true.
 Proof.
   induction sc as [|x rest IH]; intros Hok Hg; [discriminate|]. cbn [goodg goodfg] in *.
-  destruct (Hok x (or_introl eq_refl)) as [Hnp Hf]. destruct (Hf eq_refl) as [He Hi].
+  destruct (Hok x (or_introl eq_refl)) as [Hnp [Hf _]]. destruct (Hf eq_refl) as [He Hi].
   destruct (answer x) as [|r|v| |].
   - apply IH; auto. intros st Hin. apply Hok. right. exact Hin.
   - reflexivity.
@@ -742,3 +742,201 @@ Section FDrainRun.
   Qed.
 End FDrainRun.
 Print Assumptions fgroup_drains.
+
+(* ---- a StreamGroup is drained: every item of every member comes out, then the group is empty ---- *)
+(* scripts of streams: (Pending | Item)* then End *)
+Fixpoint goodsg (sc: list step) : bool :=
+  match sc with [] => false | s :: rest => match answer s with APend | AItem _ => goodsg rest | AEnd => true | _ => false end end.
+Definition nitems (sc: list step) : nat := length (filter (fun st => match answer st with AItem _ => true | _ => false end) sc).
+Definition items_total (scs: list (list step)) : nat := list_sum (map nitems scs).
+Lemma list_sum_upd {A} (f: A -> nat) (l: list A) i x d : i < length l -> list_sum (map f (upd l i x)) + f (nth i l d) = list_sum (map f l) + f x.
+Proof. unfold list_sum. revert i. induction l as [|y l IH]; intros [|i] Hi; cbn in *; try lia. specialize (IH i ltac:(lia)). lia. Qed.
+Lemma okg_goodsg sc : (forall st, In st sc -> okg true (answer st)) -> goodg sc = true -> goodsg sc = true.
+Proof.
+  induction sc as [|x rest IH]; intros Hok Hg; [discriminate|]. cbn [goodg goodsg] in *.
+  destruct (Hok x (or_introl eq_refl)) as [Hnp [_ Hs]].
+  destruct (answer x) as [|r|v| |].
+  - apply IH; auto. intros st Hin. apply Hok. right. exact Hin.
+  - exfalso. apply (Hs eq_refl r). reflexivity.
+  - apply IH; auto. intros st Hin. apply Hok. right. exact Hin.
+  - reflexivity.
+  - discriminate.
+Qed.
+
+(* C: items still scripted + outputs returned so far; N0: a lower bound on the outputs; B: a bound on every script length *)
+Definition Rs (C N0 B: nat) (s: gst) (sc: list (list step)) (rs: list out) : Prop :=
+  gq s /\ g_stream s = true /\ (forall k, pend s k = true -> goodsg (nth (g_member s k) sc []) = true) /\
+  items_total sc + nsome rs = C /\ N0 <= nsome rs /\ forall m, length (nth m sc []) <= B.
+
+Section SDrain.
+  Variables C N0 B : nat.
+  Lemma Rs_head (s: gst) (sc: list (list step)) rs i stp sc' : g_awaited s i = true -> (stp, sc') = popped_of gst g_member s sc i -> Rs C N0 B s sc rs ->
+    exists rest, nth (g_member s i) sc [] = stp :: rest /\ sc' = upd sc (g_member s i) rest /\ g_member s i < length sc /\
+                 ((answer stp = APend /\ goodsg rest = true) \/ (exists v, answer stp = AItem v /\ goodsg rest = true) \/ answer stp = AEnd).
+  Proof.
+    intros Ha E (HQ & _ & Hg & _). specialize (Hg i Ha). unfold popped_of in E.
+    destruct (nth (g_member s i) sc []) as [|x rest] eqn:En; [discriminate|]. inversion E; subst. exists rest. split; [reflexivity|]. split; [reflexivity|].
+    split; [destruct (Nat.lt_ge_cases (g_member s i) (length sc)); auto; rewrite nth_overflow in En by assumption; discriminate|].
+    cbn [goodsg] in Hg. destruct (answer x) as [|r|v| |]; try discriminate; [left; auto|right; left; eauto|right; right; reflexivity].
+  Qed.
+  Lemma items_upd (sc: list (list step)) m x rest : m < length sc -> nth m sc [] = x :: rest ->
+    items_total (upd sc m rest) + (match answer x with AItem _ => 1 | _ => 0 end) = items_total sc.
+  Proof.
+    intros Hm En. unfold items_total. pose proof (list_sum_upd nitems sc m rest [] Hm) as H. rewrite En in H.
+    unfold nitems at 2 in H. cbn [filter] in H. destruct (answer x); cbn [length] in H; fold (nitems rest) in H; lia.
+  Qed.
+
+  Lemma Rs_cont s sc rs i stp sc' s' e : g_awaited s i = true -> i < g_slots s -> (stp, sc') = popped_of gst g_member s sc i ->
+    Rs C N0 B s sc rs -> g_handle s i (answer stp) = (s', Cont, e) -> Rs C N0 B s' sc' rs.
+  Proof.
+    intros Ha Hi E HR Eh. destruct (Rs_head s sc rs i stp sc' Ha E HR) as (rest & En & -> & Hm & Hans). pose proof (popped_len B s sc i stp _ E) as Hl.
+    destruct HR as (HQ & Hs & Hg & Hn & Hlo & Hb). pose proof HQ as [_ HW]. pose proof (items_upd sc _ stp rest Hm En) as Hit.
+    destruct Hans as [[Hp Hgr]|[(v & Hv & _)|He]].
+    - rewrite Hp in Eh, Hit. cbn in Eh. inversion Eh; subst s' e. split; [exact HQ|]. split; [exact Hs|]. split; [|split; [lia|split; [exact Hlo|apply Hl, Hb]]].
+      intros k Hk. destruct (Nat.eq_dec k i) as [->|Hne]; [rewrite nth_upd_same by exact Hm; exact Hgr|rewrite (Rf_other s sc i rest k HW Ha Hk Hne); apply Hg, Hk].
+    - rewrite Hv in Eh. cbn in Eh. discriminate.
+    - rewrite He in Eh, Hit. pose proof (g_handle_cases s i AEnd) as H. cbv zeta in H. rewrite H in Eh. inversion Eh; subst s' e.
+      split; [pose proof (Q9 s i AEnd HQ Ha Hi) as X; rewrite H in X; exact X|]. split; [exact Hs|]. split; [|split; [lia|split; [exact Hlo|apply Hl, Hb]]].
+      intros k Hk. rewrite (vac_pend s (vac_state s i false) i) in Hk by reflexivity. destruct (Nat.eqb_spec k i) as [Ek|Hne]; [discriminate|].
+      rewrite (vac_member s (vac_state s i false) i) by (try reflexivity; exact Hne). rewrite (Rf_other s sc i rest k HW Ha Hk Hne). apply Hg, Hk.
+  Qed.
+  Lemma Rs_stop s sc rs i stp sc' s' r o e : g_awaited s i = true -> i < g_slots s -> (stp, sc') = popped_of gst g_member s sc i ->
+    Rs C N0 B s sc rs -> g_handle s i (answer stp) = (s', Stop r o, e) -> Rs C N0 B (g_cleanup s') sc' (rs ++ [o]).
+  Proof.
+    intros Ha Hi E HR Eh. destruct (Rs_head s sc rs i stp sc' Ha E HR) as (rest & En & -> & Hm & Hans). pose proof (popped_len B s sc i stp _ E) as Hl.
+    destruct HR as (HQ & Hs & Hg & Hn & Hlo & Hb). pose proof HQ as [_ HW]. pose proof (items_upd sc _ stp rest Hm En) as Hit.
+    destruct Hans as [[Hp _]|[(v & Hv & Hgr)|He]]; [rewrite Hp in Eh; cbn in Eh; discriminate| |rewrite He in Eh; cbn in Eh; discriminate].
+    rewrite Hv in Eh, Hit. cbn in Eh. inversion Eh; subst s' r o e.
+    assert (HQc : gq (g_cleanup s)) by (apply Q_cleanup'; exact HQ).
+    split; [exact HQc|]. split; [exact Hs|]. split; [|split; [rewrite nsome_app; cbn; lia|split; [rewrite nsome_app; lia|apply Hl, Hb]]].
+    intros k Hk. change (pend (g_cleanup s) k) with (pend s k) in Hk. change (g_member (g_cleanup s) k) with (g_member s k).
+    destruct (Nat.eq_dec k i) as [->|Hne]; [rewrite nth_upd_same by exact Hm; exact Hgr|rewrite (Rf_other s sc i rest k HW Ha Hk Hne); apply Hg, Hk].
+  Qed.
+  Lemma Rs_abort s sc rs i stp sc' s' e : g_awaited s i = true -> i < g_slots s -> (stp, sc') = popped_of gst g_member s sc i ->
+    Rs C N0 B s sc rs -> g_handle s i (answer stp) = (s', Abort, e) -> Rs C N0 B s sc' rs.
+  Proof.
+    intros Ha Hi E HR Eh. destruct (Rs_head s sc rs i stp sc' Ha E HR) as (rest & En & -> & Hm & Hans).
+    destruct Hans as [[Hp _]|[(v & Hv & _)|He]]; [rewrite Hp in Eh|rewrite Hv in Eh|rewrite He in Eh]; cbn in Eh; discriminate.
+  Qed.
+  Lemma Rs_same s s' sc rs : gq s' -> g_stream s' = g_stream s -> g_ent s' = g_ent s -> g_states s' = g_states s -> Rs C N0 B s sc rs -> Rs C N0 B s' sc rs.
+  Proof. intros HQ' E0 E1 E2 (HQ & Hs & Hg & Hn & Hlo & Hb). split; [exact HQ'|]. unfold pend, g_member in *. rewrite E0, E1, E2. repeat split; assumption. Qed.
+  Lemma Rs_order s is s1 sc rs : g_order s = Some (is, s1) -> Rs C N0 B s sc rs -> Rs C N0 B s1 sc rs.
+  Proof. intros E HR. assert (HQ : gq s1) by (eapply Q14; [apply HR|exact E]). unfold g_order in E. inversion E; subst. revert HR. apply Rs_same; auto. Qed.
+  Lemma Rs_none s sc rs : Rs C N0 B s sc rs -> Rs C N0 B s sc (rs ++ [ONone]).
+  Proof. intros (HQ & Hs & Hg & Hn & Hlo & Hb). split; [exact HQ|]. split; [exact Hs|]. split; [exact Hg|]. rewrite nsome_app. cbn. split; [lia|]. split; [lia|exact Hb]. Qed.
+  Lemma Rs_finish s sc rs : Rs C N0 B s sc rs -> match snd (g_finish s) with Some o => Rs C N0 B (fst (g_finish s)) sc (rs ++ [o]) | None => Rs C N0 B (fst (g_finish s)) sc rs end.
+  Proof.
+    intros HR. rewrite finish_cleanup. assert (HQc : gq (g_cleanup s)) by (apply Q_cleanup'; apply HR).
+    assert (HRc : Rs C N0 B (g_cleanup s) sc rs) by (revert HR; apply Rs_same; auto).
+    unfold g_finish. destruct (g_stream s && (g_done s =? g_count s)); cbn [snd]; [apply Rs_none; exact HRc|exact HRc].
+  Qed.
+  Lemma Rs_pre s sc rs o : Rs C N0 B s sc rs -> g_pre_exit s = Some o -> Rs C N0 B s sc (rs ++ [o]).
+  Proof. intros HR E. unfold g_pre_exit in E. destruct (g_len s =? 0); inversion E; subst. apply Rs_none, HR. Qed.
+End SDrain.
+
+Section SDrainRun.
+  Variable cap0 : nat.
+  Notation gstep := (step_op gst g_slots g_awaited g_member g_handle false false g_order g_pre_exit (fun _ => true) g_finish g_cleanup g_drop (fun _ => false) g_mutate).
+  Notation grun := (run_ops gst g_slots g_awaited g_member g_handle false false g_order g_pre_exit (fun _ => true) g_finish g_cleanup g_drop (fun _ => false) g_mutate).
+  Notation grounds := (rounds gst g_slots g_awaited g_member g_handle false false g_order g_pre_exit (fun _ => true) g_finish g_cleanup g_drop (fun _ => false) g_mutate).
+  Definition RWs (C N0 B: nat) (w: world gst) := Rs C N0 B (cs _ w) (scripts _ w) (results (tr _ w)).
+
+  Lemma RWs_step C N0 B w o : nomut o -> RWs C N0 B w -> RWs C N0 B (gstep w o).
+  Proof.
+    intros Hn HR. destruct o as [| |c k| |m a sc]; cbn [step_op]; try contradiction.
+    1,2: destruct (finished gst w || dropped gst w); [exact HR|];
+      apply (poll_R gst g_slots g_awaited g_member g_handle false false g_order g_pre_exit (fun _ => true) g_finish g_cleanup g_drop (fun _ => false) gq
+               G1 G8 Q9 G10 (fun s is s1 H => G12 s is s1 (proj1 H)) (Rs C N0 B) (Rs_cont C N0 B) (Rs_stop C N0 B) (Rs_abort C N0 B) (Rs_order C N0 B) (Rs_finish C N0 B) (Rs_pre C N0 B)
+               (fun s sc rs H => proj1 H) g_hnores g_dnores); exact HR.
+    destruct (fire_handle_pass gst g_slots (emit gst w [EO]) c k) as [Hc Hs]. unfold RWs. rewrite Hc, Hs, (fire_handle_res gst g_slots). cbn [cs scripts emit tr].
+    rewrite results_app. cbn. rewrite app_nil_r. exact HR.
+  Qed.
+  Lemma RWs_run C N0 B ops : Forall nomut ops -> forall w, RWs C N0 B w -> RWs C N0 B (grun w ops).
+  Proof. induction 1 as [|o r Ho Hr IH]; intros w HR; [exact HR|]. cbn [run_ops fold_left]. apply IH, RWs_step; auto. Qed.
+
+  (* the worlds reachable by histories whose inserted members are streams *)
+  Definition ReachS (w: world gst) := exists ops, Forall (goodop true) ops /\ w = grun (gw0 true cap0) ops.
+  Lemma ReachS_rounds r w : ReachS w -> ReachS (grounds r w).
+  Proof.
+    intros (ops0 & H0 & ->).
+    destruct (rounds_is_run' gst g_slots g_awaited g_member g_handle false false g_order g_pre_exit (fun _ => true) g_finish g_cleanup g_drop (fun _ => false) g_mutate r (grun (gw0 true cap0) ops0)) as (ops' & -> & Hn).
+    exists (ops0 ++ ops'). split.
+    - apply Forall_app. split; [exact H0|]. eapply Forall_impl; [|exact Hn]. apply goodop_nomut.
+    - unfold run_ops. rewrite fold_left_app. reflexivity.
+  Qed.
+  Lemma ReachS_RI w : ReachS w -> RI true w.
+  Proof. intros (ops & Hok & ->). apply RI_run; [apply RI_init|exact Hok]. Qed.
+
+  (* a None is only ever returned by an empty group (C12_none_iff_empty and C12_len, read at the last event of the trace) *)
+  Lemma none_means_empty ops t' : let w := grun (gw0 true cap0) ops in dropped _ w = false -> strip (tr _ w) = t' ++ [EEndR ONone] -> g_len (cs _ w) = 0.
+  Proof.
+    intros w Hd Et. pose proof (group_none_iff true true cap0 ops Hd) as HN. pose proof (group_trace_inv true true cap0 ops Hd) as [HG _].
+    unfold group_run' in HN, HG. fold (gw0 true cap0) in HN, HG. fold w in HN, HG. rewrite Et in HN. rewrite chkN_app in HN. apply andb_true_iff in HN as [_ HN]. cbn in HN.
+    apply andb_true_iff in HN as [HN _]. apply Nat.eqb_eq in HN.
+    pose proof (G_len _ _ HG) as HL. rewrite Et, inserted_app, droppedl_app, !app_length in HL. cbn in HL. lia.
+  Qed.
+
+  (* from a non-empty reachable StreamGroup, within B rounds: one item fewer is scripted, or the group is empty *)
+  Lemma sgroup_progress w B : ReachS w -> finished _ w = false -> dropped _ w = false -> g_len (cs _ w) <> 0 ->
+    (forall m, length (nth m (scripts _ w) []) <= B) -> 1 <= B ->
+    exists r, r < B /\ let w' := grounds (S r) w in
+      dropped _ w' = false /\ finished _ w' = false /\
+      (g_len (cs _ w') = 0 \/ items_total (scripts _ w') < items_total (scripts _ w)) /\ items_total (scripts _ w') <= items_total (scripts _ w) /\
+      forall m, length (nth m (scripts _ w') []) <= B.
+  Proof.
+    intros HR Hf Hd Hlen HB HB1. pose proof (ReachS_RI w HR) as (HI & HL & HP). pose proof HR as (ops & Hok & Ew).
+    pose proof (group_next_result true cap0 ops B Hok) as Hnext. cbv zeta in Hnext. rewrite <- Ew in Hnext.
+    destruct (Hnext Hf Hd Hlen HB HB1) as (r & Hr & Hd1 & _ & Hfin & u & o & Hu). clear Hnext.
+    exists r. split; [exact Hr|]. cbv zeta.
+    set (C := items_total (scripts _ w) + nsome (results (tr _ w))). set (N0 := nsome (results (tr _ w))).
+    assert (HR0 : RWs C N0 B w).
+    { destruct HP as (HQ & Hs & Hn & Hg). destruct HL as (_ & Hnp & _). split; [exact HQ|]. split; [exact Hs|]. split.
+      - intros k Hk. apply okg_goodsg; [intros st Hin; apply (Hnp _ st Hin)|apply Hg, Hk].
+      - split; [reflexivity|]. split; [apply Nat.le_refl|exact HB]. }
+    destruct (rounds_is_run' gst g_slots g_awaited g_member g_handle false false g_order g_pre_exit (fun _ => true) g_finish g_cleanup g_drop (fun _ => false) g_mutate (S r) w) as (ops1 & E1 & Hn1).
+    destruct (rounds_is_run' gst g_slots g_awaited g_member g_handle false false g_order g_pre_exit (fun _ => true) g_finish g_cleanup g_drop (fun _ => false) g_mutate r w) as (opsr & Er & Hnr).
+    pose proof (RWs_run C N0 B ops1 Hn1 w HR0) as HR1. rewrite <- E1 in HR1.
+    pose proof (RWs_run C N0 B opsr Hnr w HR0) as HRr. rewrite <- Er in HRr.
+    destruct HR1 as (_ & _ & _ & Hc1 & Hlo1 & Hb1). destruct HRr as (_ & _ & _ & Hcr & Hlor & _).
+    split; [exact Hd1|]. split.
+    { rewrite rounds_S.
+      eapply (round_unfinished gst g_slots g_awaited g_member g_handle false false g_order g_pre_exit (fun _ => true) g_finish g_cleanup g_drop (fun _ => false) gq) with (occ := occb) (nmem := g_nmem) (okans := okg true) (US := USg true);
+        try first [exact G1|exact G2|exact G3|exact (fun s i a s' r o e H => G4 s i a s' r o e (proj1 H))|exact G5|exact (fun s i a s' o e H => G6 s i a s' o e (proj1 H))|exact G7|exact G8|exact Q9
+                  |exact G10|exact G11|exact (fun s is s1 H => G12 s is s1 (proj1 H))|exact (fun s is s1 H => G13 s is s1 (proj1 H))|exact Q14|exact G15|exact (fun s i H => G16 s i (proj1 H))|exact Q17
+                  |exact (fun _ => eq_refl)|exact (fun _ _ _ => eq_refl)|exact Q_cleanup'|exact g_mutate_inv'|exact g_aw_occ|exact g_member_inj|exact g_member_lt|exact handle_gstable|exact order_gstable
+                  |exact finish_gstable|exact after_gstable|exact g_abort_panic|exact (okg_np true)|exact (okg_pend true)|exact (USg_cont true)].
+      - apply (ReachS_RI _ (ReachS_rounds r w HR)).
+      - apply (ReachS_RI _ (ReachS_rounds r w HR)).
+      - apply Hfin. lia.
+      - rewrite <- rounds_S. exact Hd1. }
+    split; [|split; [|exact Hb1]].
+    - (* the result is an item (one scripted item fewer), or None (the group is empty) *)
+      destruct (ReachS_rounds (S r) w HR) as (opsx & Hokx & Ex).
+      assert (Hnone : o = ONone -> g_len (cs _ (grounds (S r) w)) = 0).
+      { intros ->. rewrite Ex. apply (none_means_empty opsx (strip (tr _ (grounds r w) ++ u))); [rewrite <- Ex; exact Hd1|].
+        rewrite <- Ex, Hu, app_assoc, strip_app. reflexivity. }
+      rewrite Hu, !results_app, !nsome_app in Hc1. cbn [results flat_map] in Hc1.
+      set (w1 := grounds (S r) w) in *. set (wr := grounds r w) in *. clearbody w1 wr. unfold C, N0 in *.
+      destruct o; cbn in Hc1; try (right; lia). left. apply Hnone. reflexivity.
+    - unfold C, N0 in *. lia.
+  Qed.
+
+  (* every item of every member comes out and the group becomes empty: within (n + 1) * B rounds, n the number of items still scripted *)
+  Theorem sgroup_drains B : 1 <= B -> forall n w, ReachS w -> finished _ w = false -> dropped _ w = false -> items_total (scripts _ w) <= n ->
+    (forall m, length (nth m (scripts _ w) []) <= B) ->
+    exists R, R <= (n + 1) * B /\ let w' := grounds R w in
+      dropped _ w' = false /\ finished _ w' = false /\ g_len (cs _ w') = 0 /\ ReachS w'.
+  Proof.
+    intros HB1. induction n as [|n IH]; intros w HR Hf Hd Hn HB;
+      (destruct (Nat.eq_dec (g_len (cs _ w)) 0) as [E0|Hne]; [exists 0; split; [lia|]; cbn; repeat split; auto|]);
+      destruct (sgroup_progress w B HR Hf Hd Hne HB HB1) as (r & Hr & Hd1 & Hf1 & Hprog & Hmono & Hb1).
+    - destruct Hprog as [Hz|Hlt]; [|lia]. exists (S r). split; [lia|]. cbv zeta. repeat split; auto. apply ReachS_rounds; exact HR.
+    - destruct Hprog as [Hz|Hlt].
+      + exists (S r). split; [nia|]. cbv zeta. repeat split; auto. apply ReachS_rounds; exact HR.
+      + destruct (IH (grounds (S r) w) (ReachS_rounds (S r) w HR) Hf1 Hd1 ltac:(lia) Hb1) as (R & HRb & Hd2 & Hf2 & Hl2 & HR2).
+        exists (S r + R). split; [nia|]. cbv zeta.
+        rewrite (rounds_add gst g_slots g_awaited g_member g_handle false false g_order g_pre_exit (fun _ => true) g_finish g_cleanup g_drop (fun _ => false) g_mutate (S r) R w).
+        repeat split; auto.
+  Qed.
+End SDrainRun.
+Print Assumptions sgroup_drains.
